@@ -1,5 +1,6 @@
 """C10 Splitting an operator into stripes does not change what it computes (structural clauses)."""
 import ast
+import re
 
 from ..astutil import calls_in, call_name, inline, norm, walk_no_nested
 from ..core import AnalysisError
@@ -182,6 +183,54 @@ def run(repo, rep):
     rc2.name_axes = {nm: next(iter(k)) for nm, k in inferred.items() if len(k) == 1}
     for kind, txt, detail in rc2.check_function(cp_):
         (rep.bad if kind == "bad" else rep.ok)("C10-c", f"{HN}:create_padding", txt[:110], detail)
+    # call sites: a parameter named after an axis receives a quantity of that axis (with_hw(h, w), Kernel(w, h, ...))
+    from .shared import call_axis_agreement
+
+    call_axis_agreement(repo, rep, "C10-c")
+    # end row of the IFM box under upscaling, as a function: the statements that assign new_end_coord[-3] after the padding has
+    # been computed are composed and evaluated on a grid against the confirmed formula (any refactoring that keeps the value passes)
+    import copy as _copy
+    import itertools as _it
+
+    from ..astutil import try_fold as _tf
+
+    class _Sub(ast.NodeTransformer):
+        def visit_Subscript(self, node):
+            return ast.copy_location(ast.Name(id="S_" + re.sub(r"[^A-Za-z0-9]", "_", str(norm(node))), ctx=ast.Load()), node)
+
+        def visit_Attribute(self, node):
+            return ast.copy_location(ast.Name(id="S_" + re.sub(r"[^A-Za-z0-9]", "_", str(norm(node))), ctx=ast.Load()), node)
+
+    ends = sorted((st for st in ast.walk(tf) if isinstance(st, ast.Assign) and str(norm(st.targets[0])) == "new_end_coord[-3]"), key=lambda st: st.lineno)
+    marker = [st for st in ast.walk(tf) if isinstance(st, ast.Assign) and str(norm(st.targets[0])) == "new_start_coord[-3]" and "// upscaling_factor" in str(norm(st.value))]
+    if not ends or len(marker) != 1:
+        raise AnalysisError("transform_with_strides_and_skirt: end-row statements under upscaling not found")
+    ups = [st for st in ends if st.lineno > marker[0].lineno]
+    if not ups:
+        raise AnalysisError("transform_with_strides_and_skirt: no end-row assignment after the upscaling adjustment")
+    key = "S_new_end_coord__3_"
+    wrong = None
+    npts = 0
+    for E, stride_, s2, u, H in _it.product(range(1, 7), (1, 2, 3), (0, 1, 2, 3), (1, 2), (3, 50)):
+        env = {"stride": stride_, "upscaling_factor": u, key: E, "S_skirt_2_": s2, "S_ifm_shape_height": H}
+        val = E
+        ok_eval = True
+        for st in ups:
+            e2 = _Sub().visit(_copy.deepcopy(st.value))
+            env[key] = val
+            val = _tf(e2, env, default=None)
+            if not isinstance(val, int):
+                ok_eval = False
+                break
+        if not ok_eval:
+            raise AnalysisError(f"transform_with_strides_and_skirt: end-row statements not evaluable ({[str(norm(st.value))[:60] for st in ups]})")
+        want = max(min((E * stride_ + s2 + (s2 % u)) // u, H), 1)
+        npts += 1
+        if val != want and wrong is None:
+            wrong = (E, stride_, s2, u, H, val, want)
+    rep.check(wrong is None, "C10-c", f"{HS}:Box.transform_with_strides_and_skirt", f"IFM end row under upscaling = (end * stride + skirt_bottom + skirt_bottom % upscale) // upscale, clamped to [1, height] ({npts} points)",
+              (f"at end={wrong[0]}, stride={wrong[1]}, skirt_bottom={wrong[2]}, upscale={wrong[3]}, height={wrong[4]} the statements give {wrong[5]}, expected {wrong[6]}: "
+               "every non-last stripe of an operator reading an upscaled IFM gets one IFM row too few") if wrong else "")
     rep.floor("C10-c", 18)
 
     # ---------------------------------------------------------------- d
